@@ -10,7 +10,8 @@ from .models import depth
 
 BED = 200.0
 
-OTHER_CODES = ["M117 layer %d", "M204 P%d T1000", "M204 S%d", "M205 X%d", "M73 P%d R10", "G4 P%d",
+OTHER_CODES = ["M117 layer %d", "M204 P%d T1000", "M204 S%d", "M205 X%d", "M73 P%d R10", "G4 P%d", "M73 P0 R25",
+               "M205 S0 T0", "M204 S0",
                "M106 S%d", "M104 S%d", "M105", "T0", "M220 S%d", "M400", "M9999 X%d", "M117 hello world",
                "M73 P%d", "M205 J0.0%d", "G29", "M862.1 P0.4", "M80.1", "G38.3 F%d", "M862.3 P1"]
 AT_NOOP = ["@ExcludeRegion status", "@ExcludeRegion", "@foo bar", "@ExcludeRegion enabled-ish",
@@ -513,6 +514,33 @@ class G(object):
             self.settings_change()
         elif kind == "at_config":
             self.at_config_change()
+        elif kind == "rehome":
+            if self.ep is False:
+                axes = r.choice([None, ["X", "Y"], ["X"], ["Y"], ["Z"], ["X", "Y", "Z"]])
+                self.emit(op="home", axes=axes, needs_no_episode=True)
+                for a in (axes or ["X", "Y", "Z"]):
+                    if a == "X":
+                        self.x = 0.0
+                    elif a == "Y":
+                        self.y = 0.0
+                    else:
+                        self.z = 0.0
+                self.ep = self.inside(self.x, self.y) if self.enabled else False
+                if self.ep is not False:
+                    self.move(aim="far", axes="XY")
+        elif kind == "upload":
+            if not getattr(self, "_uploading", False) or r.random() < 0.1:
+                self.emit(op="upload_new")
+                self._uploading = True
+            for _ in range(r.randrange(1, 4)):
+                t = r.choice(["G1 X%.2f Y%.2f" % (r.uniform(0, BED), r.uniform(0, BED)), "G91", "G90", "G20", "G21",
+                              "G1 X%.1f" % r.uniform(0, BED), "G1 Z%.1f" % r.uniform(0, 20), "G28", "G1 E-1 F1800",
+                              "G1 E1", "G10", "G11", "@ExcludeRegion disable", "@ExcludeRegion enable", "G92 E0",
+                              "M117 offline"])
+                if self.regions and r.random() < 0.4:
+                    px, py = self.point_in(r.choice(list(self.regions.values())))
+                    t = "G1 X%.2f Y%.2f E1" % (px, py)
+                self.emit(op="upload_line", text=t + "\n")
         elif kind == "script_hook":
             self.emit(op="script_hook", name=r.choice(["beforePrintStarted", "afterPrintCancelled",
                       "afterPrintPaused", "beforePrintResumed", "afterPrinterConnected", "snippets/foo",
@@ -617,7 +645,10 @@ class G(object):
                       repeat_hook=(r.choice([0, 0, 1, 2]) if k.get("hook_repeats") else 0),
                       deliver_before_pump=(r.random() < 0.5))
         else:
-            self.emit(op="abort", kind=r.choice(["cancel", "cancel", "error", "fail", "error_only"]))
+            kinds = ["cancel", "cancel", "error", "fail", "error_only"]
+            if k.get("silent_abort"):
+                kinds += ["silent", "silent"]
+            self.emit(op="abort", kind=r.choice(kinds))
         self.active = False
         self.ep = False
         if k.get("clear_after"):
@@ -631,7 +662,7 @@ class G(object):
 BASE_W = {"move": 55, "arc": 0, "retract": 10, "region_add": 3, "region_grow": 1.5, "region_shrink": 1,
           "region_refused": 1, "other": 8, "at_noop": 1.5, "terminal": 2, "pump": 1, "clock": 1, "logfail": 0.5,
           "pause": 0.7, "api_get": 0.5, "settings_same": 0.5, "g92e": 2, "mode": 0, "units": 0, "g92xyz": 0,
-          "at_switch": 0, "sd_stream_at": 0, "settings_change": 0, "script_hook": 0, "at_config": 0}
+          "at_switch": 0, "sd_stream_at": 0, "settings_change": 0, "script_hook": 0, "at_config": 0, "rehome": 0, "upload": 0}
 
 
 MERGE_CODES = ["M204", "M205", "M73", "M900", "M220", "M221"]
@@ -654,7 +685,7 @@ def rand_deferral_config(rng):
 def rand_code_line(rng, code):
     if code in MERGE_CODES:
         letters = rng.sample(MERGE_LETTERS, rng.randrange(1, 4))
-        return code + "".join(" %s%s" % (l, rng.choice([str(rng.randrange(0, 2000)),
+        return code + "".join(" %s%s" % (l, rng.choice([str(rng.randrange(0, 2000)), "0", "0.0",
                                                         "%.2f" % rng.uniform(0, 50)])) for l in letters)
     if code in ("M117", "M118"):
         return "%s msg %d of %d" % (code, rng.randrange(100), rng.randrange(100))
